@@ -101,7 +101,7 @@ func VerifC05_EndToEnd() {
 		silence.NewSilencer(sils, logger, eventrecorder.Recorder{}),
 		timeinterval.NewIntervener(nil), gm, nlog, nil)
 	gwD := []time.Duration{0, 30 * time.Second}[vfChoice("groupWait", 2)]
-	giD := []time.Duration{time.Minute, 5 * time.Minute, 10 * time.Second}[vfChoice("groupInterval", 2+vfTier())]
+	giD := []time.Duration{time.Minute, 5 * time.Minute, 10 * time.Second}[vfChoice("groupInterval", 2)]
 	gw, gi := model.Duration(gwD), model.Duration(giD)
 	ri := model.Duration(1000 * time.Hour)
 	route := NewRoute(&config.Route{Receiver: "r", GroupBy: []model.LabelName{"alertname"}, GroupWait: &gw, GroupInterval: &gi, RepeatInterval: &ri}, nil)
@@ -154,7 +154,9 @@ func VerifC05_EndToEnd() {
 		refiredAt = vfNow()
 		put(t0, refiredAt.Add(1000*time.Hour), false)
 	}
-	// run well past the next two flushes after the end
+	// run well past the next two flushes after the end, and past the first flush of
+	// whatever the re-firing created
+	vfAdvance(gwD + time.Second)
 	if d := endAt.Add(2*giD + 2*time.Second).Sub(vfNow()); d > 0 {
 		vfAdvance(d)
 	}
@@ -182,6 +184,9 @@ func VerifC05_EndToEnd() {
 		}
 		return true
 	})
+	vfObserve("held", held)
+	vfObserve("live-groups", groups)
+	vfObserve("deliveries", len(recv.at))
 	switch {
 	case refire:
 		vfAssert("refired-alert-stays-in-its-group", held == 1)
